@@ -103,11 +103,47 @@ impl Evidence {
     }
 }
 
+/// Stored counter-example of a listed finding: `known_replays/<hash of signature>.json`.
+pub fn known_replay_path(signature: &str) -> PathBuf {
+    Path::new(VERIF_DIR).join("known_replays").join(format!("{}.json", sig_hash(signature)))
+}
+
 /// Final verdict of a check: prints KNOWN-FINDING / VIOLATION lines, returns the exit code.
-pub fn conclude(property: &str, violations: &[Violation]) -> i32 {
+/// `reproduce` re-runs the stored counter-example of a listed finding that the batch did
+/// not happen to reach and returns the signature it shows now, so that every listed finding
+/// that is still present gets its KNOWN-FINDING line on every run.
+pub fn conclude_with(property: &str, violations: &[Violation], reproduce: Option<&dyn Fn(&Value) -> Option<String>>) -> i32 {
     let known = KnownFindings::load();
     let mut new = 0;
     let mut printed_known: Vec<String> = Vec::new();
+    if std::env::var("VERIF_DUMP_KNOWN").is_ok() {
+        // development aid: keep one counter-example per listed finding
+        for v in violations {
+            if let Some(k) = known.matches(v) {
+                let p = known_replay_path(&k.signature);
+                if !p.exists() {
+                    let _ = fs::create_dir_all(p.parent().unwrap());
+                    let _ = fs::write(&p, serde_json::to_string_pretty(v).unwrap_or_default());
+                }
+            }
+        }
+    }
+    if let Some(reproduce) = reproduce {
+        for k in known.findings.iter().filter(|k| k.status == "open" && k.property == property) {
+            if violations.iter().any(|v| v.signature.starts_with(&k.signature)) {
+                continue;
+            }
+            let p = known_replay_path(&k.signature);
+            let Ok(text) = fs::read_to_string(&p) else { continue };
+            let Ok(v) = serde_json::from_str::<Violation>(&text) else { continue };
+            if let Some(sig) = reproduce(&v.replay) {
+                if sig.starts_with(&k.signature) {
+                    println!("KNOWN-FINDING: property={} {} [{}]", property, k.what, k.signature);
+                    printed_known.push(k.signature.clone());
+                }
+            }
+        }
+    }
     let mut printed_new: Vec<String> = Vec::new();
     for v in violations {
         if let Some(k) = known.matches(v) {
@@ -131,6 +167,10 @@ pub fn conclude(property: &str, violations: &[Violation]) -> i32 {
     } else {
         0
     }
+}
+
+pub fn conclude(property: &str, violations: &[Violation]) -> i32 {
+    conclude_with(property, violations, None)
 }
 
 /// Reach probes: "this rare condition was hit" counters, with the ones stuck at zero listed
